@@ -106,6 +106,8 @@ fn gen_class(rng: &mut Lcg, cls: &str, n: usize) -> Vec<f64> {
         // the same well-conditioned dense matrices at extreme uniform scales (LU is scale invariant)
         "dense-scaled-tiny" => for v in a.iter_mut() { *v = randn(rng) * 2f64.powi(-70); },
         "dense-scaled-huge" => for v in a.iter_mut() { *v = randn(rng) * 2f64.powi(70); },
+        // non-symmetric, positive dominant diagonal, every entry far below machine epsilon in absolute terms
+        "tiny-nonsymmetric-posdiag" => { for i in 0..n { for j in 0..n { a[i * n + j] = if i == j { (n as f64 + 2.0 + randn(rng).abs()) * 1e-19 } else { randn(rng) * 1e-19 }; } } }
         "spd" => { let g: Vec<f64> = (0..n * n).map(|_| randn(rng)).collect(); let gtg = matmul(&g, &g, n, n, true, false);
                    for i in 0..n { for j in 0..n { a[i * n + j] = gtg[i * n + j] + if i == j { 1.0 } else { 0.0 }; } } }
         "sym-indef-posdiag" => { for i in 0..n { for j in i..n { let v = randn(rng) * 3.0; a[i * n + j] = v; a[j * n + i] = v; } a[i * n + i] = 0.5 + rng.below(100) as f64 / 100.0; } }
@@ -165,7 +167,7 @@ pub fn record(seed: u64, nev: usize, out: &str) {
             }
         }
     }
-    let classes = ["dense", "spd", "sym-indef-posdiag", "diagdom", "perm-scaled-triangular", "graded", "dense-scaled-tiny", "dense-scaled-huge"];
+    let classes = ["dense", "spd", "sym-indef-posdiag", "diagdom", "perm-scaled-triangular", "graded", "dense-scaled-tiny", "dense-scaled-huge", "tiny-nonsymmetric-posdiag"];
     for e in 0..nev {
         let cls = classes[e % classes.len()];
         let n = rng.range(1, 32) as usize;
